@@ -1,6 +1,7 @@
 import RimeModel.C07.CompleteLemmas
 import RimeModel.C07.TransLemmas
 import RimeModel.C07.LongLemmas
+import RimeModel.C07.BuiltLemmas
 /-!
 C07 — candidates for an input are exactly the dictionary entries that its code spells.  Property theorems only.
 
@@ -24,17 +25,18 @@ theorem query_sound (t : Table) (g : Graph) (hk : g.KeysNodup) (start : Nat) (em
   query_sound' t g hk start ems h em hem
 
 /-- **query_complete** — if the graph spells `c ++ [y]` (1 to 3 syllables) from `start` to `e`, the table can
-follow `c` (`Advance` succeeds at every step) and holds a non-empty entry list for `c ++ [y]`, then the query
-reports a non-empty accessor with that index code at `e`. -/
-theorem query_complete (t : Table) (g : Graph) (start : Nat) (c : List Nat) (y e : Nat)
+follow `c` (`Advance` succeeds at every step) and holds a non-empty entry list for `c ++ [y]` (with any further
+property `P` of the accessor, e.g. which entries it ranges over), then the query reports such a non-empty accessor
+with that index code at `e`. -/
+theorem query_complete (t : Table) (g : Graph) (start : Nat) (c : List Nat) (y e : Nat) (P : Accessor → Prop)
     (hs : Spells g (c ++ [y]) start e) (hstart : start < g.interpLen) (hlen : c.length < indexDepth)
     (hf : Followable t c)
-    (hacc : ∀ q : TQ, q.indexCode = c → ∃ acc, access t q y = some acc ∧ acc.exhausted = false) :
+    (hacc : ∀ q : TQ, q.indexCode = c → ∃ acc, access t q y = some acc ∧ acc.exhausted = false ∧ P acc) :
     ∃ ems, query t g start = some ems ∧
-      ∃ em ∈ ems, em.1 = e ∧ em.2.indexCode = c ++ [y] ∧ em.2.exhausted = false := by
+      ∃ em ∈ ems, em.1 = e ∧ em.2.indexCode = c ++ [y] ∧ em.2.exhausted = false ∧ P em.2 := by
   obtain ⟨m, hsm, hm, he⟩ := spells_snoc_inv c y start e hs
   obtain ⟨q, hq, hqc⟩ := reach t g start c.length c m rfl hsm hm (by omega) hf
-  obtain ⟨acc, ha, hx⟩ := hacc q hqc
+  obtain ⟨acc, ha, hx, hP⟩ := hacc q hqc
   have hlev : (m, q).2.indexCode.length < indexDepth := by simp only [hqc]; exact hlen
   have hem := emission_mem t g (m, q) y e hlev (by simpa using he) acc ha hx
   have hout : (e, acc) ∈ roundOutput t g start c.length := by
@@ -42,8 +44,41 @@ theorem query_complete (t : Table) (g : Graph) (start : Nat) (c : List Nat) (y e
     exact ⟨_, ⟨(m, q), hq, rfl⟩, hem⟩
   have h3 : indexDepth = 3 := rfl
   obtain ⟨ems, hqe, hmem⟩ := query_some_of_mem t g start hstart c.length (by omega) (e, acc) hout
-  refine ⟨ems, hqe, (e, acc), hmem, rfl, ?_, hx⟩
+  refine ⟨ems, hqe, (e, acc), hmem, rfl, ?_, hx, hP⟩
   exact (access_indexCode t q y acc ha).1 (by rw [hqc]; exact hlen) |> fun h => by rw [h, hqc]
+
+/-- **rows_are_found** — completeness down to the source rows: on a table built by C06's `build` (any admissible
+page sorter `S`), every row whose code has one to three syllables and is spelled by the graph from `start` to `e`
+is reported at `e` by an accessor ranging over exactly the page of that code (all its homophones, in page order).
+Together with C06 `compile_enumerate_perm` this reads: every dictionary entry whose code the input spells is in
+the lookup result. -/
+theorem rows_are_found (S : List (CRow Dy) → List (CRow Dy)) (hS : ∀ l, (S l).Perm l) (n : Nat) (rs : List (CRow Dy))
+    (g : Graph) (start e : Nat) (hstart : start < g.interpLen) (r : CRow Dy) (hr : r ∈ rs)
+    (hlen : 1 ≤ r.code.length ∧ r.code.length ≤ 3) (hhead : r.code.getD 0 0 < n) (hs : Spells g r.code start e) :
+    ∃ ems, query (build S n rs) g start = some ems ∧
+      ∃ em ∈ ems, em.1 = e ∧ em.2.indexCode = r.code ∧
+        em.2.span = .entries ((S (pageAt r.code rs)).map toEntry) := by
+  have key : ∀ (c : List Nat) (y : Nat), r.code = c ++ [y] → c.length < indexDepth →
+      Finds (build S n rs) c y ((S (pageAt r.code rs)).map toEntry) →
+      ∃ ems, query (build S n rs) g start = some ems ∧
+        ∃ em ∈ ems, em.1 = e ∧ em.2.indexCode = r.code ∧ em.2.span = .entries ((S (pageAt r.code rs)).map toEntry) := by
+    intro c y hc hl hf
+    obtain ⟨ems, hq, em, hem, h1, h2, _, h4⟩ :=
+      query_complete (build S n rs) g start c y e (fun a => a.span = .entries ((S (pageAt r.code rs)).map toEntry))
+        (by rw [← hc]; exact hs) hstart hl hf.1 hf.2
+    exact ⟨ems, hq, em, hem, h1, by rw [h2, hc], h4⟩
+  match hcode : r.code with
+  | [] => simp [hcode] at hlen
+  | [a] =>
+    have ha : a < n := by simpa [hcode] using hhead
+    exact hcode ▸ key [] a (by simp [hcode]) (by simp [indexDepth]) (finds1 S hS n rs r hr a hcode ha)
+  | [a, b] =>
+    have ha : a < n := by simpa [hcode] using hhead
+    exact hcode ▸ key [a] b (by simp [hcode]) (by simp [indexDepth]) (finds2 S hS n rs r hr a b hcode ha)
+  | [a, b, c] =>
+    have ha : a < n := by simpa [hcode] using hhead
+    exact hcode ▸ key [a, b] c (by simp [hcode]) (by simp [indexDepth]) (finds3 S hS n rs r hr a b c hcode ha)
+  | _ :: _ :: _ :: _ :: _ => simp [hcode] at hlen
 
 /-- **match_extra_sound** — a successful (non-predictive) `match_extra_code` has consumed the whole extra code
 along a path of the graph. -/
@@ -127,22 +162,9 @@ contains no completion candidate: every candidate comes from the key that equals
 theorem table_no_completion_when_disabled (t : Table) (syl : List Bytes) (delims input : Bytes) (start : Nat)
     (exactKey : Option PrismKey) (expansion : List PrismKey)
     (hk : ∀ k ∈ exactKey.toList, k.length = (trimRightDelims delims input).length) :
-    ∀ c ∈ tableTranslation false t syl delims input start false exactKey expansion, c.type = "table" := by
+    ∀ c ∈ tableTranslation t syl delims input start false exactKey expansion, c.type = "table" := by
   intro c hc
-  simp only [tableTranslation, Bool.false_eq_true, if_false, List.mem_map] at hc
-  obtain ⟨ce, hce, rfl⟩ := hc
-  have hne := lookupWords_noEmpty t syl (trimRightDelims delims input).length exactKey.toList
-  obtain ⟨x, hx, hs⟩ := drain_mem_same _ { done := [], rest := lookupWords t syl _ exactKey.toList } ce hne hce
-  have := lookupWords_remaining t syl _ exactKey.toList hk x hx
-  simp [tableCand, hs.2.2.1, this]
-
-/-- the same with the iterator sorted before the first `Peek` (the repaired translator) -/
-theorem table_no_completion_when_disabled_sorted (t : Table) (syl : List Bytes) (delims input : Bytes) (start : Nat)
-    (exactKey : Option PrismKey) (expansion : List PrismKey)
-    (hk : ∀ k ∈ exactKey.toList, k.length = (trimRightDelims delims input).length) :
-    ∀ c ∈ tableTranslation true t syl delims input start false exactKey expansion, c.type = "table" := by
-  intro c hc
-  simp only [tableTranslation, Bool.false_eq_true, if_false, if_true, List.mem_map] at hc
+  simp only [tableTranslation, tableTranslationWith, Bool.false_eq_true, if_false, if_true, List.mem_map] at hc
   obtain ⟨ce, hce, rfl⟩ := hc
   have hne0 := lookupWords_noEmpty t syl (trimRightDelims delims input).length exactKey.toList
   have hp := sort_rest_perm { done := [], rest := lookupWords t syl (trimRightDelims delims input).length exactKey.toList }
@@ -151,11 +173,27 @@ theorem table_no_completion_when_disabled_sorted (t : Table) (syl : List Bytes) 
   have := lookupWords_remaining t syl _ exactKey.toList hk x (hp.mem_iff.mp hx)
   simp [tableCand, hs.2.2.1, this]
 
-/-- with the iterator sorted first (the repaired translator) the entries whose code equals the input are shown
-best first: the first entry is the head of a chunk that no other chunk's head beats, and so is every later one -/
-theorem table_sorted_head_best (t : Table) (syl : List Bytes) (n : Nat) (keys : List PrismKey) :
-    HeadBest (Iter.sort { done := [], rest := lookupWords t syl n keys }).rest :=
-  sort_headBest _
+/-- **table_exact_in_weight_order** — the entries whose code equals the input (one chunk per syllable the spelling
+denotes and per table) are shown best first: the iterator the translator starts from has a chunk in front that no
+other chunk's head beats, and keeps that after every `Next` (`iterator_head_best`); all chunks are exact with empty
+remaining code, so "best" is the larger credibility + weight; within a chunk the order is the table's (C06
+`weight_sorted`). -/
+theorem table_exact_in_weight_order (t : Table) (syl : List Bytes) (n : Nat) (keys : List PrismKey) :
+    HeadBest (Iter.sort { done := [], rest := lookupWords t syl n keys }).rest ∧
+    NoEmpty (Iter.sort { done := [], rest := lookupWords t syl n keys }).rest :=
+  ⟨sort_headBest _, noEmpty_perm (sort_rest_perm _) (lookupWords_noEmpty t syl n keys)⟩
+
+/-- **old_table_translation_counterexample** — the translator BEFORE the repair (no `Sort()` on the iterator
+`LookupWords` fills; finding `C07:table:exact-order`, fixed in /repo) violates the weight order: two one-syllable
+entries (syllable 0 "bbb" with the lighter 丩七丩-like entry [65], syllable 1 "cbb" with the heavier [66]) behind one
+spelling (algebra `derive/^c/b/`: the key `bbb` denotes both syllables): the old translation shows the lighter
+entry first, the repaired one the heavier. -/
+theorem old_table_translation_counterexample :
+    let t : Table := build id 2 [⟨[0], [65], ⟨1, 0⟩⟩, ⟨[1], [66], ⟨5, 0⟩⟩]
+    let key : PrismKey := { length := 3, sylls := [(0, 0), (1, 0)] }
+    (tableTranslationOld t [[98, 98, 98], [99, 98, 98]] [39] [98, 98, 98] 0 false (some key) [key]).map (·.text) = [[65], [66]] ∧
+    (tableTranslation t [[98, 98, 98], [99, 98, 98]] [39] [98, 98, 98] 0 false (some key) [key]).map (·.text) = [[66], [65]] := by
+  decide
 
 /-- **table_exact_then_completion_partial** — in what one iterator over word chunks yields, entries whose code
 equals the input (empty remaining code) come before entries whose code extends it, provided the chunk in front
@@ -165,8 +203,8 @@ FULL STATEMENT (not proved): the same for the whole `LazyTableTranslation`, acro
 limits 10, 100, …; missing: an invariant for `fetchMore`/`Iter.skip` saying that the chunks of a later batch
 have remaining codes at least as long as those already shown (holds for breadth-first key order without
 spelling algebra).  NOT claimed at all: weight order among the exact entries when SEVERAL keys/syllables equal
-the code (spelling algebra): the first entry shown is the head of the first chunk, unsorted — see the check's
-finding `C07:table:exact-order`. -/
+the code (spelling algebra, or packs: one chunk per table) — that is `table_exact_in_weight_order`, which needs
+the initial `Sort()` the repair added. -/
 theorem table_exact_then_completion_partial (chunks : List Chunk) (hne : NoEmpty chunks)
     (hall : ∀ c ∈ chunks, c.isExact = true) (hhead : HeadStatic chunks) :
     (drainAll { done := [], rest := chunks }).Pairwise
